@@ -715,6 +715,14 @@ impl Prop for C20 {
         c.faults = vec![Fault { op: simos::ANY_OP, role: ARCHIVE.into(), dir: Dir::W, at: At::Byte(budget), act: Act::Enospc }];
         c
     }
+    fn sibling(&self, c: &Case) -> Option<Case> {
+        // every sixth case is preceded, in the same run, by another case of the property (generated from its hash seed)
+        if c.hash_seed % 6 != 4 {
+            return None;
+        }
+        Some(self.gen(&mut Rng::new(c.hash_seed ^ 0x51B1_1B15), Tier::Quick, 0))
+    }
+
     fn sim_params(&self, c: &Case) -> SimParams {
         SimParams { faults: c.faults.clone(), chunk_r: c.chunk_r.clone(), chunk_w: c.chunk_w.clone(), hash_seed: c.hash_seed, clock_s: 1_750_000_000 }
     }
